@@ -41,8 +41,15 @@ def _ctor_formulas(repo, k, alg):
     if init is None or init.cls != k:
         raise AnalysisError(f"anchor vanished: {k}.__init__")
     F = e8.Formula(repo, None, alg)
+    F.module = init.module
     env = {p_: alg.param(p_) for p_ in init.params[1:]}
     for s in strip_docstring(init.node.body):
+        if isinstance(s, ast.Expr) and isinstance(s.value, ast.Call) and isinstance(s.value.func, ast.Name):
+            # a call of a module-level helper that only validates its arguments (returns no value)
+            g = next((x for x in repo.funcs.values() if x.module == init.module and x.cls is None
+                      and x.name == s.value.func.id and isinstance(x.node, ast.FunctionDef)), None)
+            if g is not None and not any(isinstance(r_, ast.Return) and r_.value is not None for r_ in ast.walk(g.node)):
+                continue
         if isinstance(s, ast.If) and s.body and isinstance(s.body[-1], ast.Raise) and not s.orelse:
             continue
         if isinstance(s, ast.Expr) and isinstance(s.value, ast.Call) and norm(s.value.func).startswith("warnings."):
@@ -142,12 +149,15 @@ def rule_r2(rep, repo):
     pair_of = dict(MAP_PAIRS)
     pair_of["_gstrip"] = "_dergstrip"
     n = 0
+    scopes = []
     for k in sorted(repo.subclasses("OneDGrid")):
-        if not k.startswith("Trefethen"):
-            continue
         init = repo.resolve_method(k, "__init__")
-        if init is None or init.cls != k:
-            continue
+        if init is not None and init.cls == k and init.module == "onedgrid":
+            scopes.append((k, init))
+    for g_ in repo.funcs.values():   # a shared helper may apply the maps on behalf of several classes
+        if g_.module == "onedgrid" and g_.cls is None and not g_.is_lambda and isinstance(g_.node, ast.FunctionDef):
+            scopes.append((g_.name, g_))
+    for k, init in scopes:
         branches = [init.node.body]
         for s in ast.walk(init.node):
             if isinstance(s, ast.If):
@@ -166,7 +176,7 @@ def rule_r2(rep, repo):
             okk = len(dcalls) == 1 and norm(dcalls[0].func) == want and [norm(a) for a in dcalls[0].args] == args and \
                 isinstance(wv, ast.BinOp) and isinstance(wv.op, ast.Mult) and \
                 {norm(wv.left), norm(wv.right)} == {norm(dcalls[0]), args[-1].replace(".points", ".weights")}
-            cons = f"onedgrid.{k}.__init__"
+            cons = f"onedgrid.{k}.__init__" if init.cls else f"onedgrid.{k}"
             if okk:
                 rep.ok("R2.map-applied-with-its-derivative", f"{k}[{gname}]", repo.rel("onedgrid", pv),
                        f"points = {gname}(x), weights = {want}(x) * w")
@@ -175,7 +185,7 @@ def rule_r2(rep, repo):
                               f"the nodes are mapped with {gname}({', '.join(args)}) but the weights are "
                               f"`{norm(wv)[:80]}`: they must be {want}({', '.join(args)}) times the weights of the "
                               f"underlying rule", repo.rel("onedgrid", wv))
-    rep.floor("Trefethen map applications", n, 8)
+    rep.floor("Trefethen map applications", n, 3)
 
 
 def _strip_pair(rep, repo):
